@@ -11,10 +11,17 @@ Record Inv (st : state) : Prop := mkInv {
             is_monitor st (p_get p) = false /\ (forall s, p_send p = Some s -> is_monitor st s = false);
   rules_ok : forall r, In r (st_rules st) -> is_monitor st (fst r) = false;
   mons_conn : forall x, is_monitor st x = true -> connected st x = true;
-  conns_lt : forall c, connected st c = true -> c < st_next st }.
+  conns_lt : forall c, connected st c = true -> c < st_next st;
+  held_ok : forall n c m, In (n, c, m) (st_held st) -> is_monitor st c = false /\ b_sender m = SConn c }.
 
 Lemma Inv_init : Inv init.
 Proof. split; simpl; try tauto; try constructor; try discriminate. Qed.
+
+Lemma has_held_false st c : has_held st c = false -> forall n m, ~ In (n, c, m) (st_held st).
+Proof.
+  intros H n m Hin. apply Bool.not_true_iff_false in H. apply H. unfold has_held.
+  apply existsb_exists. exists (n, c, m). split; auto. simpl. apply N.eqb_refl.
+Qed.
 
 (* ---------------------------------------------------------------- how the helper functions move the state *)
 Lemma remove_owner_state st c n : fst (remove_owner st c n) = set_own st (unlink (st_own st) n c).
@@ -121,6 +128,15 @@ Proof.
   intros n c H. apply (own_ok0 n c). apply Hs; auto.
 Qed.
 
+Lemma Inv_set_held st h' :
+  Inv st -> (forall x, In x h' -> In x (st_held st) \/
+                                  (is_monitor st (snd (fst x)) = false /\ b_sender (snd x) = SConn (snd (fst x)))) ->
+  Inv (set_held st h').
+Proof.
+  intros I H. destruct I. split; simpl; auto.
+  intros n c m Hin. destruct (H _ Hin) as [H1|H1]; auto. apply (held_ok0 n c m H1).
+Qed.
+
 Lemma Inv_set_own_add st n c :
   Inv st -> connected st c = true -> is_monitor st c = false -> ~ In (n, c) (st_own st) ->
   Inv (set_own st (st_own st ++ [(n, c)])).
@@ -161,19 +177,67 @@ Proof.
   intros p H. left. apply drop_pending_In in H. tauto.
 Qed.
 
+Lemma deliver_state st c r m b : fst (deliver st c r m b) = set_pend st (fst (check_policy (st_pend st) c r m)).
+Proof.
+  unfold deliver. destruct (check_policy (st_pend st) c r m) as [pl v]. simpl.
+  destruct v; [reflexivity|]. destruct (fanout (set_pend st pl) (Some c) (Some r) m); reflexivity.
+Qed.
+
+Lemma Inv_deliver st c r m b :
+  Inv st -> is_monitor st c = false -> is_monitor st r = false -> Inv (fst (deliver st c r m b)).
+Proof.
+  intros I Hc Hr. rewrite deliver_state. destruct (check_policy (st_pend st) c r m) as [pl v] eqn:Ec. simpl.
+  apply Inv_set_pend; auto. intros p Hp.
+  destruct (check_policy_sub _ _ _ _ _ _ Ec p Hp) as [H | ->]; [left; auto|]. right. simpl.
+  split; auto. intros s E. inversion E; subst; auto.
+Qed.
+
+Lemma Inv_resume_all r l : forall st,
+  Inv st -> is_monitor st r = false -> (forall n c m, In (n, c, m) l -> is_monitor st c = false) ->
+  Inv (fst (resume_all st r l)) /\ st_mons (fst (resume_all st r l)) = st_mons st.
+Proof.
+  induction l as [|[[n c] m] l IH]; intros st I Hr Hl; simpl; auto.
+  destruct (connected st c).
+  - destruct (deliver st c r m true) as [st1 i1] eqn:E1.
+    pose proof (deliver_state st c r m true) as Hs. rewrite E1 in Hs. simpl in Hs.
+    assert (I1 : Inv st1).
+    { pose proof (Inv_deliver st c r m true I (Hl n c m (or_introl eq_refl)) Hr) as H. rewrite E1 in H. exact H. }
+    assert (Em : st_mons st1 = st_mons st) by (subst st1; reflexivity).
+    destruct (IH st1 I1) as [I2 E2].
+    + unfold is_monitor. rewrite Em. exact Hr.
+    + intros n' c' m' H. unfold is_monitor. rewrite Em. apply (Hl n' c' m'). right; auto.
+    + destruct (resume_all st1 r l) as [st2 i2]. simpl in *. split; auto. congruence.
+  - apply IH; auto. intros n' c' m' H. apply (Hl n' c' m'). right; auto.
+Qed.
+
+Lemma Inv_release_held st nm : Inv st -> Inv (fst (release_held st nm)).
+Proof.
+  intros I. unfold release_held. destruct (primary (st_own st) nm) as [r|] eqn:Ep; [|simpl; auto].
+  assert (Hr : is_monitor st r = false). { apply primary_In in Ep. apply (own_ok _ I) in Ep. tauto. }
+  apply Inv_resume_all.
+  - apply Inv_set_held; auto. intros x H. apply filter_In in H. tauto.
+  - exact Hr.
+  - intros n c m H. apply filter_In in H. destruct H as [H _]. apply (held_ok _ I) in H. tauto.
+Qed.
+
 Lemma Inv_request_name st c s n dnq :
   Inv st -> connected st c = true -> is_monitor st c = false -> Inv (fst (request_name st c s n dnq)).
 Proof.
   intros I Hc Hm. unfold request_name.
+  assert (G : forall st' (l : list item) (code : N), Inv st' ->
+              Inv (fst (let '(st'', l2) := release_held st' (NWk n) in
+                        (st'', l ++ l2 ++ [from_driver st'' c (reply_msg c s [ANum code])])))).
+  { intros st' l code I'. pose proof (Inv_release_held st' (NWk n) I') as H.
+    destruct (release_held st' (NWk n)) as [st'' l2]. exact H. }
   destruct (queue (st_own st) (NWk n)) as [|p q] eqn:Eq.
-  - simpl. apply Inv_set_own_add; auto. intros H. apply queue_In in H. rewrite Eq in H. destruct H.
-  - destruct (p =? c); [simpl; auto|].
+  - apply G. apply Inv_set_own_add; auto. intros H. apply queue_In in H. rewrite Eq in H. destruct H.
+  - destruct (p =? c); [apply G; auto|].
     destruct dnq.
-    + simpl. apply Inv_set_own_sub; auto.
+    + apply G. apply Inv_set_own_sub; auto.
       * intros [k o] H. apply unlink_In in H. tauto.
       * apply NoDup_unlink. apply (own_nodup _ I).
-    + destruct (memN c (p :: q)) eqn:Em; [simpl; auto|].
-      simpl. apply Inv_set_own_add; auto. intros H. apply queue_In in H. rewrite Eq in H.
+    + destruct (memN c (p :: q)) eqn:Em; [apply G; auto|].
+      apply G. apply Inv_set_own_add; auto. intros H. apply queue_In in H. rewrite Eq in H.
       apply memN_false in Em. auto.
 Qed.
 
@@ -193,36 +257,26 @@ Proof.
 Qed.
 
 Lemma Inv_dispatch st c m :
-  Inv st -> is_monitor st c = false -> Inv (fst (dispatch st c m)).
+  Inv st -> is_monitor st c = false -> b_sender m = SConn c -> Inv (fst (dispatch st c m)).
 Proof.
-  intros I Hm. unfold dispatch.
+  intros I Hm Hs. unfold dispatch.
   destruct (b_dest m) as [d|].
   2:{ destruct (fanout st (Some c) None m); simpl; auto. }
-  assert (G : forall d', d = d' -> Inv (fst (match primary (st_own st) d' with
-      | None => (st, [entry_item st c m; error_reply st c m (if b_noauto m then E_NAME_HAS_NO_OWNER else E_SERVICE_UNKNOWN)])
-      | Some r =>
-          let '(pl, verdict) := check_policy (st_pend st) c r m in
-          let st' := set_pend st pl in
-          match verdict with
-          | Some e => (st', [mk_item st (Some c) (Some r) m None []; error_reply st' c m e])
-          | None => let '(rs, refused) := fanout st' (Some c) (Some r) m in
-                    (st', mk_item st (Some c) (Some r) m (Some r) rs :: refused)
-          end
-      end))).
-  { intros d' _. destruct (primary (st_own st) d') as [r|] eqn:Ep; [|simpl; auto].
-    destruct (check_policy (st_pend st) c r m) as [pl v] eqn:Ec.
-    assert (I' : Inv (set_pend st pl)).
-    { apply Inv_set_pend; auto. intros p Hp.
-      destruct (check_policy_sub _ _ _ _ _ _ Ec p Hp) as [H | ->]; [left; auto|]. right. simpl.
-      split; auto. intros s E. inversion E; subst.
-      apply primary_In in Ep. apply (own_ok _ I) in Ep. tauto. }
-    cbv zeta. destruct v; [simpl; auto|]. destruct (fanout (set_pend st pl) (Some c) (Some r) m); simpl; auto. }
+  assert (G : forall d', Inv (fst (match primary (st_own st) d' with
+                                   | None => no_owner st c d' m
+                                   | Some r => deliver st c r m false
+                                   end))).
+  { intros d'. destruct (primary (st_own st) d') as [r|] eqn:Ep.
+    - apply Inv_deliver; auto. apply primary_In in Ep. apply (own_ok _ I) in Ep. tauto.
+    - unfold no_owner. destruct (b_noauto m); [simpl; auto|]. destruct (negb (activatable d')); [simpl; auto|].
+      destruct (deny_send m false); [simpl; auto|]. simpl.
+      apply Inv_set_held; auto. intros x H. apply in_app_or in H. destruct H as [H|[<-|[]]]; auto. }
   destruct d as [|u|w].
   - unfold to_driver. destruct (deny_send m false); [simpl; auto|].
     destruct (driver_generic st c m) as [st' l] eqn:E. simpl.
     unfold driver_generic in E. destruct (b_type m); inversion E; subst; auto.
-  - apply (G (NUniq u)); reflexivity.
-  - apply (G (NWk w)); reflexivity.
+  - apply G.
+  - apply G.
 Qed.
 
 Lemma filter_neq_In (x : cid) l c : In c (filter (fun y => negb (y =? x)) l) <-> In c l /\ c <> x.
@@ -247,8 +301,9 @@ Proof.
     + intros x H. rewrite memN_filter_neq in *. apply andb_true_iff in H. destruct H as [H1 H2].
       rewrite (mons_conn0 x H1), H2. reflexivity.
     + intros x H. rewrite memN_filter_neq in H. apply andb_true_iff in H. apply conns_lt0. tauto.
+    + intros n o m H. destruct (held_ok0 n o m H) as [H1 H2]. rewrite memN_filter_neq, H1. auto.
   - (* an ordinary client leaves *)
-    set (st1 := mkState (filter (fun x => negb (x =? c)) (st_conns st)) (st_next st) (st_own st)
+    set (st1 := upd st (filter (fun x => negb (x =? c)) (st_conns st)) (st_next st) (st_own st)
                         (drop_rules (st_rules st) c) (st_mrules st) (st_mons st) (st_pend st)).
     destruct (release_all st1 c (rev (owned (st_own st1) c))) as [st2 rel] eqn:E2.
     destruct (noreply_items st2 c) as [st3 nr] eqn:E3. simpl.
@@ -263,18 +318,19 @@ Proof.
     + intros r H. unfold drop_rules in H. apply filter_In in H. apply rules_ok0. tauto.
     + intros x H. rewrite memN_filter_neq, (mons_conn0 x H). simpl. apply negb_true_iff. apply N.eqb_neq. intros ->. congruence.
     + intros x H. rewrite memN_filter_neq in H. apply andb_true_iff in H. apply conns_lt0. tauto.
+    + intros n o m H. apply (held_ok0 n o m H).
 Qed.
 
 Lemma Inv_become_monitor st c s fs :
-  Inv st -> connected st c = true -> Inv (fst (become_monitor st c s fs)).
+  Inv st -> connected st c = true -> has_held st c = false -> Inv (fst (become_monitor st c s fs)).
 Proof.
-  intros I Hc. unfold become_monitor.
+  intros I Hc Hh. pose proof (has_held_false st c Hh) as Hnh. unfold become_monitor.
   set (fs' := match fs with [] => [empty_filter] | _ => fs end).
-  set (st1 := mkState (st_conns st) (st_next st) (st_own st) (st_rules st)
+  set (st1 := upd st (st_conns st) (st_next st) (st_own st) (st_rules st)
                       (st_mrules st ++ map (fun f => (c, f)) fs') (st_mons st) (st_pend st)).
   destruct (release_all st1 c (owned (st_own st1) c)) as [st2 rel] eqn:E2.
   pose proof (release_all_state st1 c (owned (st_own st1) c)) as H2. rewrite E2 in H2. simpl in H2.
-  set (st3 := mkState (st_conns st2) (st_next st2) (st_own st2) (drop_rules (st_rules st2) c)
+  set (st3 := upd st2 (st_conns st2) (st_next st2) (st_own st2) (drop_rules (st_rules st2) c)
                       (st_mrules st2) (st_mons st2 ++ [c]) (st_pend st2)).
   destruct (noreply_items st3 c) as [st4 nr] eqn:E4. simpl.
   pose proof (noreply_items_state st3 c) as H4. rewrite E4 in H4. simpl in H4. subst st4 st3 st2.
@@ -293,9 +349,30 @@ Proof.
   - intros x H. rewrite memN_app in H. apply orb_true_iff in H. destruct H as [H|H]; auto.
     simpl in H. rewrite orb_false_r in H. apply N.eqb_eq in H. subst; auto.
   - auto.
+  - intros n o m H. destruct (held_ok0 n o m H) as [H1 H2]. split; auto.
+    rewrite memN_app, H1. simpl. rewrite orb_false_r. apply N.eqb_neq. intros ->. apply (Hnh n m H).
 Qed.
 
-Lemma Inv_connect st : Inv st -> Inv (fst (connect st)).
+Lemma parse_all_None rs : parse_all rs = None <-> In None rs.
+Proof.
+  induction rs as [|[f|] rs IH]; simpl.
+  - split; [discriminate | tauto].
+  - destruct (parse_all rs) as [l|].
+    + split; [discriminate|]. intros [H|H]; [discriminate|]. apply IH in H. discriminate.
+    + split; auto. intros _. right. apply IH. reflexivity.
+  - split; auto.
+Qed.
+
+Lemma Inv_become_monitor_call st c s so fl rs :
+  Inv st -> connected st c = true -> has_held st c = false -> Inv (fst (become_monitor_call st c s so fl rs)).
+Proof.
+  intros I Hc Hh. unfold become_monitor_call.
+  destruct (memN c (st_unpriv st)); [simpl; auto|]. destruct (negb so); [simpl; auto|].
+  destruct (negb (fl =? 0)); [simpl; auto|]. destruct (parse_all rs); [|simpl; auto].
+  apply Inv_become_monitor; auto.
+Qed.
+
+Lemma Inv_connect st priv : Inv st -> Inv (fst (connect st priv)).
 Proof.
   intros I. unfold connect. simpl. destruct I. unfold set_own. simpl.
   assert (Hfresh : connected st (st_next st) = false).
@@ -313,6 +390,7 @@ Proof.
   - intros x H. rewrite memN_app in H. apply orb_true_iff in H. destruct H as [H|H].
     + apply conns_lt0 in H. lia.
     + simpl in H. rewrite orb_false_r in H. apply N.eqb_eq in H. lia.
+  - intros n o m H. apply (held_ok0 n o m H).
 Qed.
 
 Lemma Inv_to_driver st c m h : Inv st -> Inv (fst h) -> Inv (fst (to_driver st c m h)).
@@ -320,10 +398,10 @@ Proof.
   intros I Ih. unfold to_driver. destruct (deny_send m false); [simpl; auto|]. destruct h; simpl in *; auto.
 Qed.
 
-Theorem Inv_step st e : Inv st -> Inv (fst (step st e)).
+Theorem Inv_step st e : Inv st -> calm_event st e = true -> Inv (fst (step st e)).
 Proof.
-  intros I. unfold step. destruct (wf_event st e) eqn:W; simpl; auto.
-  destruct e as [|c|c m|c s n dnq|c s n|c s f|c s|c s fs]; simpl in W.
+  intros I Hcalm. unfold step. destruct (wf_event st e) eqn:W; simpl; auto.
+  destruct e as [priv|c|c m|c s n dnq|c s n|c s f|c s|c s so fl rs]; simpl in W.
   - apply Inv_connect; auto.
   - apply Inv_disconnect; auto.
   - simpl. apply andb_true_iff in W. destruct W as [Wc _].
@@ -344,7 +422,8 @@ Proof.
     apply Inv_to_driver; auto.
   - simpl. apply andb_true_iff in W. destruct W as [Wc _].
     destruct (is_monitor st c) eqn:Em; [apply Inv_disconnect; auto|].
-    apply Inv_to_driver; auto. apply Inv_become_monitor; auto.
+    apply Inv_to_driver; auto. apply Inv_become_monitor_call; auto.
+    simpl in Hcalm. apply negb_true_iff in Hcalm. exact Hcalm.
 Qed.
 
 Lemma run_app st h1 h2 :
@@ -355,12 +434,13 @@ Proof.
   - destruct (step st e) as [s1 i1]. rewrite IH. destruct (run s1 h1) as [s2 t1]. destruct (run s2 h2). reflexivity.
 Qed.
 
-Lemma Inv_run st h : Inv st -> Inv (fst (run st h)).
+Lemma Inv_run st h : Inv st -> calm st h = true -> Inv (fst (run st h)).
 Proof.
-  revert st. induction h as [|e h IH]; intros st I; simpl; auto.
-  destruct (step st e) as [s1 i1] eqn:E. pose proof (Inv_step st e I) as I1. rewrite E in I1. simpl in I1.
-  specialize (IH s1 I1). destruct (run s1 h); auto.
+  revert st. induction h as [|e h IH]; intros st I Hc; simpl; auto.
+  simpl in Hc. apply andb_true_iff in Hc. destruct Hc as [Hc1 Hc2].
+  destruct (step st e) as [s1 i1] eqn:E. pose proof (Inv_step st e I Hc1) as I1. rewrite E in I1. simpl in I1, Hc2.
+  specialize (IH s1 I1 Hc2). destruct (run s1 h); auto.
 Qed.
 
-Theorem Inv_reachable st : reachable st -> Inv st.
-Proof. intros [h ->]. unfold state_after. apply Inv_run. apply Inv_init. Qed.
+Theorem Inv_creachable st : creachable st -> Inv st.
+Proof. intros (h & Hc & ->). unfold state_after. apply Inv_run; auto. apply Inv_init. Qed.
